@@ -32,7 +32,5 @@ class TriggerUnknownCset(ModificationError):
     def __init__(self, trigger, csets):
         if not isinstance(csets, (tuple, list)):
             csets = (csets,)
-        super().__init__(
-            f"{self.__class__}: trigger {trigger!r} unknown cset: {csets!r}"
-        )
-        self.trigger, self.csets = trigger, csets
+        super().__init__(trigger, f"unknown cset: {csets!r}")
+        self.csets = csets
